@@ -127,6 +127,20 @@ def try_builtin(ex, fr, callee, args, dty):
     if re.match(r"^(?:std::pin::|core::pin::)?Pin::<.*>::(get_mut|get_unchecked_mut|into_inner|get_ref)$", c):
         v = args[0]
         return v.fields[0] if isinstance(v, AggV) and len(v.fields) == 1 else v
+    # ---- `vec![a, b]` / `Box::new`: exchange_malloc gives a fresh heap cell, the array is written through the raw pointer, `into_vec` reads it back
+    if re.match(r"^alloc::alloc::exchange_malloc$", c):
+        return ex.ctx.ref_to(AggV((), "uninit"))
+    if re.match(r"^(?:std|alloc)::slice::<impl \[.*\]>::into_vec(::<.*>)?$", c):
+        b = args[0]
+        for _ in range(6):
+            if isinstance(b, AggV) and b.fields:
+                b = b.fields[0]
+        if isinstance(b, RefV):
+            v = deref(ex, b)
+            if isinstance(v, AggV):
+                return ListV(tuple(v.fields), dty or "Vec<?>")
+            if isinstance(v, ListV):
+                return v
     # ---- mem
     if re.match(r"^(?:std|core)::mem::replace$", c):
         old = deref(ex, args[0])
